@@ -241,7 +241,9 @@ def tt_setdiff_rows(MatrixA: np.ndarray, MatrixB: np.ndarray) -> np.ndarray:
     valid, location = tt_ismember_rows(
         MatrixBUnique[np.argsort(idxB)], MatrixAUnique[np.argsort(idxA)]
     )
-    return np.setdiff1d(idxA, location[valid])
+    # location indexes the unique rows of A in order of first appearance;
+    # map it back to row indices of A itself
+    return np.setdiff1d(idxA, np.sort(idxA)[location[valid]])
 
 
 def tt_intersect_rows(MatrixA: np.ndarray, MatrixB: np.ndarray) -> np.ndarray:
@@ -280,7 +282,9 @@ def tt_intersect_rows(MatrixA: np.ndarray, MatrixB: np.ndarray) -> np.ndarray:
     valid, location = tt_ismember_rows(
         MatrixBUnique[np.argsort(idxB)], MatrixAUnique[np.argsort(idxA)]
     )
-    return location[valid]
+    # location indexes the unique rows of A in order of first appearance;
+    # map it back to row indices of A itself
+    return np.sort(idxA)[location[valid]]
 
 
 def tt_irenumber(
